@@ -49,6 +49,8 @@ def jobs(tier):
     # three numerals: a type named twice through a synonym must not disturb the choice
     J("header", "header:k=3:json-json-csv", dict(k=3, types="dup", ows=False, reg=["0.1", "0.5", "1.0"]), 900, 8, expect=["supported"])
     J("triples", "triples:[[0,1]]", dict(shape=[[0, 1]], custom=False), 600, 5, expect=["subject-bound", "object-bound", "nothing"])
+    J("triples", "triples:[[0,0]]:concrete-custom-predicate", dict(shape=[[0, 0]], custom="http://www.w3.org/2004/02/skos/core#exactMatch"), 600, 5,
+      expect=["subject-bound", "object-bound", "nothing"])
     J("header", "header:k=2:all-types", dict(k=2, types="all", ows=True), 3000, 9, ("thorough",), ["supported", "default"])
     J("triples", "triples:[[0,2],[0,0]]", dict(shape=[[0, 2], [0, 0]], custom=False), 2400, 8, ("thorough",), ["subject-bound", "object-bound", "nothing"])
     J("triples", "triples:[[1,1]]:custom-predicate", dict(shape=[[1, 1]], custom=True), 1800, 6, ("thorough",), ["subject-bound", "object-bound", "nothing"])
@@ -127,7 +129,7 @@ def build(job):
         recs = mk_recs(eng, params["shape"])
         assume_strict(eng, recs)
         conv = api.Converter([api.Record(**r.kwargs()) for r in recs])
-        cp = eng.var("configured") if params["custom"] else None
+        cp = (params["custom"] if isinstance(params["custom"], str) else eng.var("configured")) if params["custom"] else None
         g = ms.MappingServiceGraph(converter=conv, predicates=cp) if cp is not None else ms.MappingServiceGraph(converter=conv)
         configured = cp if cp is not None else SAMEAS
         u, pred = eng.var("u"), eng.var("pred")
